@@ -106,8 +106,9 @@ CLAIMED["C02"] = {
             "operator dispatch (Op::symbol, bin_op, bin_op_assign) is read the same way; no site builds a boxed present optional, which the "
             "operators would not look through; unary minus is accepted only where Primitive::negate accepts it; (b) every built-in method the type "
             "checker declares resolves at run time to an implementation that accepts the receiver, destructures the declared parameter kinds and "
-            "returns the declared kind (87 receiver/method pairs). Further clauses (dependency-walk completeness, return marking) are added "
-            "as their engines land. Not decided: eq_complex over compound "
+            "returns the declared kind (87 receiver/method pairs). (c) visitor completeness of the dependency walk: every code-bearing field of every AST "
+            "type with a Dependencies impl is read by dependencies()/supplies() (an unvisited field is an uncaptured variable = undefined variable "
+            "at run time). The return-marking clause is added when its engine lands. Not decided: eq_complex over compound "
             "types, element kinds of containers, typeof text.",
     "technique": "static analysis: abstract interpretation of rustc MIR extracting decision tables of two sibling implementations, compared exhaustively",
     "design_ref": "DESIGN.md §5 C02",
@@ -162,7 +163,7 @@ NOT_APPLICABLE = {
 }
 
 # no hook commits exist; the only commits made to /repo are unguarded "fix:" repairs of genuine defects (see known_findings.json)
-FIX_COMMITS = ["e2ae2a9", "cb2d1e0", "e7575e5", "7bc2f7d", "0af4d83", "e4a4c00", "58e025f", "686179e", "7296d9a", "fa4b68b", "379557f", "4b30646"]
+FIX_COMMITS = ["e2ae2a9", "cb2d1e0", "e7575e5", "7bc2f7d", "0af4d83", "e4a4c00", "58e025f", "686179e", "7296d9a", "fa4b68b", "379557f", "4b30646", "0420930", "3aba53e"]
 
 PENDING = "check not built yet in this round (framework under construction); planned per DESIGN.md §5/§8"
 
